@@ -5,6 +5,14 @@ CHECKS = {
    text="TLC checks the statement's algebraic laws and agreement with a named-term reference semantics on every hole-free term up to the size bound (all formers incl. 2/3-definition groups), then every prescribed shift/open/free-variable result is replayed into the real functions; random large terms are judged by a TLC trace specification. Exhaustive inside the bound, randomised beyond it.",
    note="Trusted: spec/GramTerm.tla + spec/GramNamed.tla as the meaning of capture-avoiding substitution; TLC; the harness's Term<->JSON projection. Bounded: size <= 5 (quick) / 7 (thorough), cutoffs 0..2, amounts -2..2.",
    technique=MB + "bounded-exhaustive replay of TLC-generated behaviours into de_bruijn.rs + TLC trace validation of recorded calls"),
+ "C09": dict(level="model_checking", design_ref="DESIGN.md section 4, C09",
+   text="The tokenizer is specified as a character-level state machine (spec/GramLexer.tla) that TLC checks against the declarative statement of the property (Partition, MaximalMunch, KeywordsWholeWord, LiteralShape, EveryBadSymbolReported) on all texts up to the length bound over five focused alphabets; every text with its prescribed tokens / error ranges is replayed into the real tokenize(); random Unicode texts are judged by a TLC trace specification (machine equality, the declarative predicates on the observation, literal values recomputed with exact limb arithmetic).",
+   note="Trusted: the declarative predicates as the reading of the statement; Unicode classes and grapheme boundaries as computed by Rust's char methods / unicode-segmentation in the harness; error ranges are read back from the coloured diagnostic. Bounded: length <= 5 (quick) / 6 (thorough) per alphabet; random texts to 400 / 2000 characters.",
+   technique=MB + "bounded-exhaustive replay of TLC-generated texts into tokenizer.rs + TLC trace validation of recorded tokenizations"),
+ "C10": dict(level="model_checking", design_ref="DESIGN.md section 4, C10",
+   text="TLC checks on the lexer specification that the two 28-way line-break tables are equivalent to the one-sentence rule of the statement and that dropping comments, padding blanks, repeating line breaks and exchanging a separating line break with `;` leave the token stream unchanged (all texts up to the bound over the layout alphabets, and every ordered pair of token kinds x 16 gap fillings x 3 trailers - complete over both tables); all those texts are replayed into the real tokenizer; re-layouts of whole programs are validated by a TLC trace specification that first decides from the specification whether the re-layout is legal and then requires unchanged tokens and parse result.",
+   note="Trusted: spec/GramLayout.tla as the reading of the rule (`;` counts as both; which line break of a gap carries the terminator is left open). Bounded: length <= 5/6; pairs table complete; 300 / 10 000 program re-layouts.",
+   technique=MB + "bounded-exhaustive replay of TLC-generated layouts into tokenizer.rs + TLC trace validation of program re-layouts"),
 }
 PENDING = "check not built yet in this session (planned in DESIGN.md section 4); will be claimed once its TLA+ model and conformance harness exist"
 NOT_APPLICABLE = {p: PENDING for p in ["C%02d" % i for i in range(1, 20)]}
